@@ -278,14 +278,25 @@ def compare_revert_preconditioned(c, impl, parts):
                ("backward offset", nin, cc, lambda i, a: tl[i]),
                ("backward noise", nin, nin, lambda i, j: tl[i] * tl[j])]
         k = 0
+        segs = []
         for name, rows, cols, fac in seg:
             fi = [impl[pos + k + i * cols + j] * fac(i, j) for i in range(rows) for j in range(cols)]
             fm = [Fr(part[k + i * cols + j]) * Fr(fac(i, j)) for i in range(rows) for j in range(cols)]
-            mism, w = compare_vec(fi, fm)
-            if mism:
-                return f"{name} (preconditioned coordinates): {mism}", 0
-            worst = max(worst, w)
+            segs.append((name, fi, fm))
             k += rows * cols
+        # floors: mean-like quantities against the largest mean-like entry, covariance-like against the largest covariance-like
+        # entry, the gain against itself; the tolerance grows with the spread of the scalings (conditioning of the stacked QR)
+        grow = 1.0 + c["span"]
+        mx_mean = max([abs(float(x)) for nm, _fi, fm in segs if nm in ("observed mean", "backward offset") for x in fm] + [1e-300])
+        mx_cov = max([abs(float(x)) for nm, _fi, fm in segs if nm in ("observed covariance", "backward noise") for x in fm] + [1e-300])
+        for name, fi, fm in segs:
+            mxs = mx_mean if name in ("observed mean", "backward offset") else (mx_cov if name != "backward A" else
+                                                                                 max([abs(float(x)) for x in fm] + [1e-300]))
+            for e_i, (a, b) in enumerate(zip(fi, fm)):
+                fb = float(b)
+                if a != a or abs(a - fb) > 1e-8 * grow * abs(fb) + 1e-9 * grow * mxs:
+                    return f"{name} (preconditioned coordinates): entry {e_i}: implementation {a!r} vs model {fb!r} (scale {mxs:.3g})", 0
+                worst = max(worst, abs(a - fb) / (abs(fb) + 0.1 * mxs) / grow)
         if k != len(part):
             return f"length {len(part)} vs expected {k}", 0
         pos += k
